@@ -197,6 +197,22 @@ func switchTo(next *task) {
 	}
 }
 
+// seamPoint is called from every intercepted operation that touches the outside world (a
+// write to a standard stream, a read of the clock or of standard input): with more than
+// one task these are the places where an interleaving matters most, so the schedule may
+// switch there regardless of the slice.
+func seamPoint() {
+	if !running || dead || len(tasks) < 2 {
+		return
+	}
+	if schedRand(3) == 0 {
+		if next := pickNext(cur); next != nil {
+			cur.idleEpoch = -1
+			switchTo(next)
+		}
+	}
+}
+
 // maybePreempt is called from Tick.
 func maybePreempt() {
 	if len(timers) > 0 {
@@ -346,9 +362,7 @@ func fireDue() {
 	for _, tm := range due {
 		when := time.UnixMilli(tm.at).UTC()
 		if tm.period > 0 {
-			for tm.at <= now {
-				tm.at += tm.period
-			}
+			tm.at += ((now-tm.at)/tm.period + 1) * tm.period
 		} else {
 			tm.live = false
 		}
